@@ -30,7 +30,7 @@ import (
 func TestMain(m *testing.M) { evid.Main("C13", m) }
 
 type Case struct {
-	Op      string `json:"op"`      // commit | commit-first | merge | prune
+	Op      string `json:"op"`      // commit | commit-first | commit-same | merge | prune | fetch | pull
 	Rows    int    `json:"rows"`    // size of the base table
 	Edit    int    `json:"edit"`    // row edited by the operation's data
 	Subproc bool   `json:"subproc"` // kill a real wrgl subprocess instead of failing writes in-process
@@ -41,7 +41,7 @@ var sub = evid.Register("crash", run)
 func TestPropCrash(t *testing.T) {
 	rapid.Check(t, func(t *rapid.T) {
 		c := Case{
-			Op:   rapid.SampledFrom([]string{"commit", "commit-first", "merge", "prune", "fetch", "pull"}).Draw(t, "op"),
+			Op:   rapid.SampledFrom([]string{"commit", "commit-first", "merge", "prune", "fetch", "pull", "commit-same"}).Draw(t, "op"),
 			Rows: rapid.SampledFrom([]int{3, 40, 256, 300, 520}).Draw(t, "rows"),
 		}
 		c.Edit = rapid.IntRange(0, c.Rows-1).Draw(t, "edit")
@@ -157,6 +157,16 @@ func setup(c Case) (*world, error) {
 		w.args = []string{"commit", "main", base, "first", "-p", "id", "-n", "1"}
 	case "commit":
 		if err := run("commit", "main", base, "first", "-p", "id", "-n", "1"); err != nil {
+			return nil, err
+		}
+		w.args = []string{"commit", "main", edited, "second", "-p", "id", "-n", "1"}
+	case "commit-same":
+		// the data being committed is already the table of another branch (tables are content
+		// addressed: whatever the interrupted commit does must not hurt that branch)
+		if err := run("commit", "main", base, "first", "-p", "id", "-n", "1"); err != nil {
+			return nil, err
+		}
+		if err := run("commit", "other", edited, "same data elsewhere", "-p", "id", "-n", "1"); err != nil {
 			return nil, err
 		}
 		w.args = []string{"commit", "main", edited, "second", "-p", "id", "-n", "1"}
